@@ -37,6 +37,22 @@ def fmt_template(b):
     return pieces, nargs
 
 
+def is_dir_below(facts, b, depth=0, seen=None):
+    """is Path::is_dir called anywhere in the crate functions / closures reachable from b (3 levels)?"""
+    seen = seen if seen is not None else set()
+    seen.add(b.id)
+    for bb, t in b.calls():
+        if (callee_names(t)[1] or "") == "std::path::Path::is_dir":
+            return True
+    if depth >= 3:
+        return False
+    for f_ in facts.callees(b):
+        cb = facts.bodies.get(f_.get("res_id") or f_.get("def_id"))
+        if cb is not None and cb.id not in seen and is_dir_below(facts, cb, depth + 1, seen):
+            return True
+    return False
+
+
 def run(facts, rep, ctx):
     R1 = rep.rule("R13.1", "the accumulation loop visits every layer and adds each layer's result to one accumulator", floor=2)
     R2 = rep.rule("R13.2", "result is de-duplicated and a natural ascending sort is the last operation before return", floor=2)
@@ -244,6 +260,8 @@ def run(facts, rep, ctx):
                 rep.ok(R5, {"fn": b.name, "pattern": "<dir>/*", "filter": "is_dir"})
             elif stars - {"*"}:
                 rep.violation(R5, b.name, "pattern", "sub-directory listing globs with %s (specified: <dir>/* one level, directories only)" % sorted(stars), "%s:%s" % (b.file, b.line))
+            elif stars == {"*"} and not isdir and is_dir_below(facts, b):
+                rep.inconc(R5, "sub-directory listing: is_dir is tested in a helper the listing calls, under a condition that is not followed")
             elif stars == {"*"} and not isdir:
                 rep.violation(R5, b.name, "pattern", "sub-directory listing never tests is_dir: files would be reported as directories", "%s:%s" % (b.file, b.line))
             else:
